@@ -53,7 +53,14 @@ def r1(run, db):
 
 
 def forwarders_v1(db):
-    return [f for f in db.crate_fns("ractor") if f.kind == "coroutine" and re.search(r"output::v1::OutputPortSubscription::new::\{closure#0\}$", f.id)]
+    """the body of the task that OutputPortSubscription::new spawns (written in place, or a local async fn spawned there)"""
+    out = []
+    for f in db.crate_fns("ractor"):
+        if re.search(r"output::v1::OutputPortSubscription::new$", f.id):
+            for c, g in spawned_coroutines(db, f):
+                if g.id not in [x.id for x in out]:
+                    out.append(g)
+    return out
 
 
 def r2(run, db):
